@@ -24,7 +24,9 @@ RULE = ('configurations = overwrite x overwrite_part x rm_part_on_exc x text_mod
         '{None,0600,0644,0755} x umask {0,022,077} x destination {absent, present 0664} x part file '
         '{absent, foreign present} x body {normal, raises before/between/after writes, intruder creates '
         'destination}; per configuration: fault-free run, then every single injected OSError (ENOSPC, '
-        'EIO, EACCES/EPERM/EEXIST by call kind) at every event, all fault pairs for small scenarios; '
+        'EIO, EACCES/EPERM/EEXIST/ENOTSUP/ENOSYS/EMLINK/EXDEV/EBUSY by call kind) at every event, all fault pairs for small '
+        'scenarios; with overwrite=False another process creating the destination at every event boundary (also while link is '
+        'refused with each errno); one saver object used twice (after a failed and after a successful first use); '
         'distinct = distinct (configuration, fault position(s), errno) cases in which the fault was '
         'actually delivered')
 ASSUMPTIONS = [
@@ -38,7 +40,8 @@ ASSUMPTIONS = [
 
 ERRNOS = {'write': [errno.ENOSPC, errno.EIO], 'flush': [errno.ENOSPC, errno.EIO], 'fsync': [errno.EIO],
           'close': [errno.EIO, errno.ENOSPC], 'open': [errno.EACCES, errno.ENOSPC],
-          'chmod': [errno.EPERM], 'rename': [errno.EACCES, errno.EXDEV], 'link': [errno.EEXIST, errno.EPERM],
+          'chmod': [errno.EPERM], 'rename': [errno.EACCES, errno.EXDEV, errno.EBUSY],
+          'link': [errno.EEXIST, errno.EPERM, errno.ENOTSUP, errno.ENOSYS, errno.EMLINK, errno.EXDEV],
           'unlink': [errno.EACCES], 'stat': [errno.EACCES], 'lexists': [errno.EACCES]}
 
 
@@ -251,6 +254,85 @@ def check_scenario(fu, scn, stats, viol, pairs):
         shutil.rmtree(base, ignore_errors=True)
 
 
+def check_intruder_sweep(fu, scn, stats, viol):
+    """overwrite=False and the destination appears (created exclusively by someone else) at every event boundary of
+    the save, also while the link step is being refused with each errno: whoever created the file first keeps it,
+    and a save that lost the race must say so."""
+    base = tempfile.mkdtemp(prefix='verif-c05i-')
+    n = [0]
+
+    def run(faults, at):
+        d = os.path.join(base, 'i%d' % n[0])
+        n[0] += 1
+        os.mkdir(d)
+        res = F.run_in_process(fu, scn, d, faults=faults, intruder_at=at)
+        shutil.rmtree(d, ignore_errors=True)
+        return res
+    try:
+        log0 = run(None, None)['log']
+        links = [i for i, e in enumerate(log0) if e[0] == 'link']
+        variants = [None] + ([{links[0]: e} for e in ERRNOS['link']] if links else [])
+        for faults in variants:
+            logf = run(faults, None)['log']
+            for k in range(len(logf) + 1):
+                res = run(faults, k)
+                stats.evaluations += 1
+                stats.monitor_evals += 1
+                stats.count('intruder_positions')
+                if not res['intruder_created']:
+                    continue
+                stats.count('intruder_won_the_race')
+                a = res['after']['dest']
+                where = (res['log'][k][0] if k < len(res['log']) else '<end>')
+                tag = ':link-' + errno.errorcode[list(faults.values())[0]] if faults else ''
+                if a is None or a['bytes'] != F.INTRUDER:
+                    viol('intruder-overwritten:before-%s%s' % (where, tag),
+                         'overwrite=False: another process created the destination before event %d (%s) of %r; the save '
+                         '%s and the destination now holds %r...' % (k, where, [e[0] for e in res['log']],
+                                                                   'raised %r' % res['exc'] if res['exc'] else 'returned normally',
+                                                                   a and a['bytes'][:24]),
+                         {'scn': scn, 'faults': [[kk, e] for kk, e in (faults or {}).items()], 'intruder_at': k})
+                elif res['exc'] is None:
+                    viol('intruder-ignored:before-%s%s' % (where, tag),
+                         'overwrite=False: the destination appeared before event %d (%s) and the save returned normally'
+                         % (k, where), {'scn': scn, 'faults': [[kk, e] for kk, e in (faults or {}).items()], 'intruder_at': k})
+                elif scn['rm_part_on_exc'] and res['after']['part'] is not None and \
+                        not any(e[0] == 'unlink' and 'FAULT' in str(e[-1]) for e in res['log']):
+                    viol('part-left-behind:intruder%s' % tag, 'lost the race for the destination and left %r behind'
+                         % (res['after']['listing'],), {'scn': scn, 'faults': [[kk, e] for kk, e in (faults or {}).items()], 'intruder_at': k})
+    finally:
+        shutil.rmtree(base, ignore_errors=True)
+
+
+def check_reuse(fu, scn, stats, viol):
+    """One AtomicSaver object entered twice (a retry loop around `with saver:`): the second save is judged like any
+    other save in the directory state it found."""
+    d = tempfile.mkdtemp(prefix='verif-c05u-')
+    try:
+        res = F.run_in_process(fu, scn, d)
+        stats.evaluations += 1
+        stats.monitor_evals += 1
+        stats.count('saver_objects_reused')
+        want = F.expected_bytes(scn)
+        a = res['after']
+        wit = {'scn': scn, 'faults': []}
+        if res['exc'] is not None:
+            viol('reuse:%s:raised' % scn['reuse'], 'second use of one saver object raised %r' % (res['exc'],), wit)
+        elif a['dest'] is None or a['dest']['bytes'] != want:
+            viol('reuse:%s:content' % scn['reuse'], 'destination holds %r' % (brief(a['dest']),), wit)
+        else:
+            em = expected_mode(scn, res['before'])
+            if a['dest']['mode'] != em:
+                viol('reuse:%s:wrong-permissions' % scn['reuse'], 'mode %o after the second use of one saver object, '
+                     'expected %o (file_perms=%r, replaced=%r, umask=%o)' % (a['dest']['mode'], em, scn.get('file_perms'),
+                                                                            res['before']['dest'] and oct(res['before']['dest']['mode']),
+                                                                            scn.get('umask', 0o022)), wit)
+            if a['part'] is not None:
+                viol('reuse:%s:part-left' % scn['reuse'], 'listing %r' % (a['listing'],), wit)
+    finally:
+        shutil.rmtree(d, ignore_errors=True)
+
+
 STRACE_FAULTS = [('write', 'ENOSPC'), ('write', 'EIO'), ('fsync', 'EIO'), ('close', 'EIO'),
                  ('rename', 'EACCES'), ('link', 'EEXIST'), ('chmod', 'EPERM'), ('openat', 'EACCES'),
                  ('unlink', 'EACCES')]
@@ -350,6 +432,16 @@ def run(ctx):
             break
         st.count('configurations')
         check_scenario(fu, scn, st, viol, pairs=(i % 3 == 0))
+        plain = scn.get('raise_at') is None and not scn.get('intruder') and scn['part'] == 'absent'
+        if plain and not scn['overwrite'] and scn['dest'] == 'absent' and (i % 2 == 0 or ctx.thorough):
+            check_intruder_sweep(fu, scn, st, viol)
+        if plain and (scn['overwrite'] or scn['dest'] == 'absent'):
+            for how in ('after-failure', 'after-success'):
+                if how == 'after-success' and not scn['overwrite']:
+                    continue        # the second save is then legitimately refused
+                if how == 'after-failure' and not scn['rm_part_on_exc'] and not scn['overwrite_part']:
+                    continue        # the part file kept on purpose blocks the next attempt
+                check_reuse(fu, dict(scn, reuse=how), st, viol)
         if F.strace_available() and i < nA:
             st.count('configurations_strace')
             check_scenario_strace(scn, st, viol)
@@ -369,6 +461,12 @@ def replay(witness):
     scn = witness['scn']
     faults = {(k if k == 'persist' else int(k)): (tuple(e) if isinstance(e, list) else int(e))
               for k, e in witness.get('faults', [])}
+    if witness.get('intruder_at') is not None:
+        check_intruder_sweep(fu, scn, st, viol)
+        return found[0] if found else None
+    if scn.get('reuse'):
+        check_reuse(fu, scn, st, viol)
+        return found[0] if found else None
     d = tempfile.mkdtemp(prefix='verif-c05r-')
     try:
         res = F.run_in_process(fu, scn, os.path.join(d), faults=faults or None)
